@@ -5,6 +5,7 @@
 #include <cstdio>
 #include <cstdlib>
 #include <cstring>
+#include <ctime>
 #include <string>
 #include <map>
 #include "runtime/value.h"
@@ -55,6 +56,20 @@ int main(int argc, char** argv)
             printf("RESULT %d STATE %d\n", r, w_vm_state(vm));
             if (r == 2) w_vm_execute(vm, 3);
             run++;
+        }
+        return 0;
+    }
+    if (op == "timed")
+    {   // timed <max_runtime_ms> <gap_ms> <hex>: create VM with the limit, sleep gap, then run the text twice (real clock)
+        long M = atol(argv[2]); long gap = atol(argv[3]); std::string text = unhex(argv[4]);
+        void* vm = w_vm_new(1023, M, 1);
+        for (int run = 0; run < 2; run++)
+        {
+            struct timespec ts = { gap / 1000, (gap % 1000) * 1000000L }; nanosleep(&ts, nullptr);
+            printf("RUN %d\n", run);
+            char* buf = (char*)malloc(text.size() ? text.size() : 1); memcpy(buf, text.data(), text.size());
+            int r = w_vm_run_sqf(vm, buf, text.size(), 0);
+            printf("RESULT %d STATE %d\n", r, w_vm_state(vm));
         }
         return 0;
     }
